@@ -3,69 +3,12 @@
 package main
 
 import (
-	"errors"
 	"fmt"
-	"io"
 	"strconv"
 	"strings"
 
 	"rare/pkg/readahead"
 )
-
-// scriptedReader mirrors Rare.C04.Reader.read.
-type scriptStep struct {
-	want int
-	err  byte // 'n', 'e', 'f'
-}
-
-type scriptedReader struct {
-	rest   []byte
-	script []scriptStep
-}
-
-var errInjected = errors.New("injected read failure")
-
-func (r *scriptedReader) Read(p []byte) (int, error) {
-	if len(r.script) == 0 {
-		if len(r.rest) == 0 {
-			return 0, io.EOF
-		}
-		n := copy(p, r.rest)
-		r.rest = r.rest[n:]
-		return n, nil
-	}
-	s := r.script[0]
-	r.script = r.script[1:]
-	n := s.want
-	if n > len(p) {
-		n = len(p)
-	}
-	if n > len(r.rest) {
-		n = len(r.rest)
-	}
-	copy(p, r.rest[:n])
-	r.rest = r.rest[n:]
-	switch s.err {
-	case 'e':
-		return n, io.EOF
-	case 'f':
-		return n, errInjected
-	}
-	return n, nil
-}
-
-func parseScript(s string) []scriptStep {
-	if s == "." {
-		return nil
-	}
-	var out []scriptStep
-	for _, p := range strings.Split(s, ",") {
-		kv := strings.Split(p, ":")
-		n, _ := strconv.Atoi(kv[0])
-		out = append(out, scriptStep{n, kv[1][0]})
-	}
-	return out
-}
 
 func c04Run(f []string) string {
 	switch f[0] {
